@@ -39,13 +39,25 @@ def accepted_metrics():
                 continue
             args = _EXTRA_ARGS.get(name, {})
             try:
-                m = cls(**args)
+                m = rec_metric_class(cls)(**args)
                 w = validate_loss_function(m)
             except Exception:  # noqa: BLE001  not accepted in this environment
                 continue
+            # dict-input or single-value?  Observed at the metric seam (what the metric is handed when the wrapper is
+            # called with a one-entry prediction dict), never read off private attributes of the wrapper.
+            probe_log = []
+            m._sim_log = probe_log
+            try:
+                w(0, {"output": 0})
+            except Exception:  # noqa: BLE001
+                pass
+            m._sim_log = None
+            dict_input = any(ev[0] in ("U", "UX") and any(
+                isinstance(a, tuple) and len(a) == 2 and a[0] == "y_pred" and isinstance(a[1], tuple) and a[1][:1] == ("dict",)
+                for a in ev[1]) for ev in probe_log)
             fam = "reg" if isinstance(m, RegressionMetric) else "bin" if isinstance(m, BinaryMetric) else \
                 "multi" if isinstance(m, MultiClassMetric) else "other"
-            out.append({"name": name, "args": args, "family": fam, "dict_input": bool(w._dict_input_metric),
+            out.append({"name": name, "args": args, "family": fam, "dict_input": bool(dict_input),
                         "labels": bool(getattr(m, "requires_labels", True)),
                         "bigger_is_better": bool(getattr(m, "bigger_is_better", False))})
         _ACCEPTED = out
